@@ -39,9 +39,24 @@ package flowcontrol
 //@   modifies setstatecalls, stateremoved[f]
 //@   ensures setstatecalls == old(setstatecalls) + 1
 //@   ensures forall i string :: {i in stateremoved[f]} (i in stateremoved[f]) <==> old(i in stateremoved[f]) || (current < 0 && i == instance)
+//@ interface (GlobalFlowControl).Resize(f, n, burst) props C08, C16
+//@   modifies gfcsize[f]
+//@   ensures gfcsize[f] == n
 //@ interface (GlobalFlowControl).Type(f) props C08
 //@   pure-def gfcType(f)
 //@ interface (GlobalFlowControl).DebugInfo(f) props C08
 //@   pure
 //@ interface (GlobalFlowControl).String(f) props C08
 //@   pure
+
+// The limiter server applies an accepted FlowControl without crashing (C16): a schema with a global member always gets a
+// server-side limiter, and the resize helper is only handed an existing one.
+//@ func NewGlobalFlowControl props C16
+//@   panics-never
+//@   modifies nothing
+//@   ensures [non_nil_for_global] schema.GlobalMaxRequestsInflight != nil || schema.GlobalTokenBucket != nil ==> result != nil
+
+//@ func ResizeGlobalFlowControl props C16
+//@   requires [fc] schema.GlobalMaxRequestsInflight != nil || schema.GlobalTokenBucket != nil ==> fc != nil
+//@   panics-never
+//@   modifies gfcsize[fc]
